@@ -46,6 +46,16 @@ def check(tier, seed):
                       extra={"obligation": o["id"], "solver": backend, "solver_status": "refuted"})
         if len(run.violations) == before:
             run.cov["refuted_known"] += 1
-    return run.finish("other", "bounded stand-in only: round-trip / fix-point / determinism contracts evaluated on every tree of the "
+    # the parse half of the law reads strings back through the lexer's decoders: their contracts (Engine A, all texts), position clauses left to C01
+    import contracts.lexer as LEX
+    from vf import engine_a
+    decoders = ("Lexer._read_string", "Lexer._read_block_string", "Lexer._read_escape_sequence", "Lexer._read_escaped_unicode")
+    todo = [c for c in LEX.CONTRACTS if c.qualname in decoders]
+    if len(todo) != len(decoders):
+        raise MachineryDefect("lexer decoder contracts not found: %r" % [c.qualname for c in todo])
+    run.cov["parts"]["engine_a"] = engine_a.run(run, todo, frontend.spec_namespace(), {}, engine_a.generic_instantiate(), jobs=8,
+                                               timeout_ms=20000 if tier == "thorough" else 10000, all_contracts=LEX.CONTRACTS,
+                                               skip=lambda oid: oid.endswith("position-in-text"))
+    return run.finish("other", "Engine A on the lexer's string decoders + printer slot coverage + bounded stand-in: round-trip / fix-point / determinism contracts evaluated on every tree of the "
                                "enumerated corpus under 5 indent settings; not a proof",
                       checker_cmd="./check C03 --tier %s" % tier)
